@@ -96,3 +96,57 @@ Example C13_nonvacuous :
   | None => False
   end.
 Proof. vm_compute. split; reflexivity. Qed.
+
+(* ---- the main theorems applied: every hypothesis of C13_reference_of_stripped_patch and
+   C13_equals_stripped_patch discharged on the loaded document {"a":[1,2],"s":3} and a seven-operation patch:
+   removes of an absent member, of an out-of-range index, through an absent ancestor and through a scalar
+   (all four skipped: strip deletes them), a copy, a remove of an existing element, and a test that fails.
+   The reference run of the stripped patch fails at ITS operation 2 (the test) with cause FTest; the theorem
+   yields: the run with the option on fails with the corresponding error at the operation of the full patch
+   that is the stripped patch's operation 2. ---- *)
+From JP Require PointerDomain Abs.
+Import Abs.
+Definition C13_ex_doc := B "{""a"":[1,2],""s"":3}".
+Definition C13_ex_patch := B "[{""op"":""remove"",""path"":""/x""},{""op"":""remove"",""path"":""/a/7""},{""op"":""copy"",""from"":""/a"",""path"":""/b""},{""op"":""remove"",""path"":""/q/r/s""},{""op"":""remove"",""path"":""/s/t""},{""op"":""remove"",""path"":""/a/0""},{""op"":""test"",""path"":""/b"",""value"":[1]}]".
+Definition C13_ex_o := mkOpts true 0 true false false [] None.
+Definition C13_ex_t : tjson := Eval vm_compute in match parse C13_ex_doc with Some t => t | None => TNull end.
+Definition C13_ex_p : list operation := Eval vm_compute in match api_decode C13_ex_patch with Some p => p | None => [] end.
+Definition C13_ex_c : con := Eval vm_compute in match load_doc C13_ex_o C13_ex_t with Ok (RCon c) => c | _ => KAry NNil [] end.
+Definition C13_ex_st := mkState (RCon C13_ex_c) 0.
+Definition C13_ex_stripped : list operation := Eval vm_compute in strip (dia C13_ex_o) (den C13_ex_t) C13_ex_p.
+
+Example C13_main_theorem_applies :
+  length C13_ex_p = 7%nat /\ length C13_ex_stripped = 3%nat /\
+  (exists k1 e, apply_from C13_ex_o 0 C13_ex_st C13_ex_p = AErr k1 e /\ cause_rel FTest e /\
+                nth_error C13_ex_p k1 = nth_error C13_ex_stripped 2) /\
+  (exists k e2, apply_from (set_allow C13_ex_o false) 0 C13_ex_st C13_ex_stripped = AErr k e2 /\
+     exists k1 e1 cz, apply_from C13_ex_o 0 C13_ex_st C13_ex_p = AErr k1 e1 /\ cause_rel cz e1 /\ cause_rel cz e2 /\
+                      nth_error C13_ex_p k1 = nth_error C13_ex_stripped k).
+Proof.
+  assert (P : parse C13_ex_doc = Some C13_ex_t) by (vm_compute; reflexivity).
+  assert (G : cgood C13_ex_c /\ cval C13_ex_c = den C13_ex_t).
+  { destruct (load_doc_good C13_ex_o C13_ex_doc C13_ex_t P eq_refl eq_refl) as [c [L [G V]]].
+    vm_compute in L. injection L as <-. split; assumption. }
+  assert (SG : sgood C13_ex_st) by (exists C13_ex_c; split; [reflexivity | exact (proj1 G)]).
+  assert (SV : sval C13_ex_st = den C13_ex_t) by exact (proj2 G).
+  assert (D : Forall op_dom C13_ex_p)
+    by (apply (PointerDomain.decoded_in_domain_op_dom C13_ex_patch); vm_compute; reflexivity).
+  assert (AO : allow_opts C13_ex_o) by (split; [reflexivity | split; reflexivity]).
+  assert (CF : copies_fit (dia C13_ex_o) (sval C13_ex_st) (map den_op (strip (dia C13_ex_o) (sval C13_ex_st) C13_ex_p)) = true)
+    by (rewrite SV; vm_compute; reflexivity).
+  split; [vm_compute; reflexivity|]. split; [vm_compute; reflexivity|]. split.
+  - pose proof (C13_reference_of_stripped_patch C13_ex_o AO C13_ex_p 0%nat 0%nat C13_ex_st SG D CF) as H.
+    rewrite SV in H. change (strip (dia C13_ex_o) (den C13_ex_t) C13_ex_p) with C13_ex_stripped in H.
+    assert (R : rfc_apply_from (dia C13_ex_o) 0 (den C13_ex_t) (map den_op C13_ex_stripped) = Failed 2 FTest)
+      by (vm_compute; reflexivity).
+    rewrite R in H. destruct H as [k1 [e [H1 [H2 [_ [_ H5]]]]]].
+    exists k1, e. split; [exact H1|]. split; [exact H2|]. rewrite !Nat.sub_0_r in H5. exact H5.
+  - pose proof (C13_equals_stripped_patch C13_ex_o C13_ex_p 0%nat C13_ex_st AO SG D CF) as H.
+    cbv zeta in H. rewrite SV in H. change (strip (dia C13_ex_o) (den C13_ex_t) C13_ex_p) with C13_ex_stripped in H.
+    destruct (apply_from (set_allow C13_ex_o false) 0 C13_ex_st C13_ex_stripped) as [st2|k e2|k] eqn:A;
+      [vm_compute in A; discriminate A | | destruct H].
+    exists k, e2. split; [reflexivity|].
+    destruct H as [k1 [e1 [cz [H1 [H2 [H3 [_ [_ H6]]]]]]]].
+    exists k1, e1, cz. split; [exact H1|]. split; [exact H2|]. split; [exact H3|]. rewrite !Nat.sub_0_r in H6. exact H6.
+Qed.
+Print Assumptions C13_main_theorem_applies.
